@@ -104,13 +104,16 @@ theorem openFile_envelope (mode : Mode) (data foot : Reader.Bytes) (hlen : foot.
 
 /-- the schema element the writer emits for a column -/
 def colElement (c : Writer.Col) : ThriftParquet.SchemaElement :=
-  { type := some c.ptype.code, typeLength := c.typeLen, repetition := some c.rep.code, name := some (FileReal.strBytes c.name) }
+  { type := some c.ptype.code, typeLength := c.typeLen, repetition := some c.rep.code, name := some (FileReal.strBytes c.name),
+    logicalType := FileReal.colLogical c }
+
+theorem colElement_eq (c : Writer.Col) : colElement c = FileReal.schemaElementOfCol c := rfl
 
 /-- what `build_schema` sees of it -/
 def colInfo (c : Writer.Col) : Info := (toElement (colElement c)).info
 
 /-- the root element's info as `build_schema` sees it -/
-def rootInfoW : Info := ⟨nameOf (some (FileReal.strBytes "schema")), none, none, 0, none⟩
+def rootInfoW : Info := ⟨nameOf (some (FileReal.strBytes "schema")), none, none, 0, none, none⟩
 
 theorem schema_written (md : FooterData) :
     (FileReal.fileMetaData md).schema =
